@@ -305,6 +305,58 @@ def rule_f(model, rep):
     rep.check(ok, R, site(CTX, "CryptContext.load") + " merge order", shown, "update(): the new keys are overlaid on (come after) the existing configuration")
 
 
+def rule_g(model, rep):
+    """`truncate_error` is about the password the caller typed: the value handed to _check_truncate_policy() is the `secret` parameter itself,
+    or its bytes (encode / to_bytes / the upper-cased form lmhash measures) -- never something that was already cut, padded or normalised by a helper"""
+    R = "C05.g-policy-sees-whole-secret"
+    n = 0
+    CONVERT = ("encode", "upper")
+    for un, unit in model.units.items():
+        if not un.startswith(("passlib.handlers", "passlib.utils.handlers")):
+            continue
+        for q, fn in unit.functions():
+            if q.endswith("._check_truncate_policy"):
+                continue
+            ps = [a.arg for a in fn.args.args]
+            for c in walk_no_nested(fn):
+                if not (isinstance(c, ast.Call) and isinstance(c.func, ast.Attribute) and c.func.attr == "_check_truncate_policy" and c.args):
+                    continue
+                n += 1
+                arg = c.args[0]
+
+                def clean(e, depth=0):
+                    """e is the parameter `secret`, or a pure conversion of it"""
+                    if isinstance(e, ast.Name):
+                        if e.id == "secret" and "secret" in ps:
+                            # every assignment to `secret` that precedes the call must itself be a conversion of the parameter
+                            for a in walk_no_nested(fn):
+                                if isinstance(a, ast.Assign) and any(isinstance(t, ast.Name) and t.id == "secret" for t in a.targets) and a.lineno < c.lineno:
+                                    if depth > 3 or not clean_value(a.value, depth + 1):
+                                        return False
+                                if isinstance(a, ast.Assign) and any(isinstance(t, ast.Tuple) and any(isinstance(x, ast.Name) and x.id == "secret" for x in t.elts) for t in a.targets) and a.lineno < c.lineno:
+                                    return False
+                            return True
+                        defs = [a.value for a in walk_no_nested(fn) if isinstance(a, ast.Assign) and any(isinstance(t, ast.Name) and t.id == e.id for t in a.targets) and a.lineno < c.lineno]
+                        return bool(defs) and depth <= 3 and all(clean_value(v, depth + 1) for v in defs)
+                    return clean_value(e, depth)
+
+                def clean_value(v, depth):
+                    if isinstance(v, ast.Name):
+                        return v.id == "secret" or clean(v, depth)
+                    if isinstance(v, ast.IfExp):
+                        return clean_value(v.body, depth) and clean_value(v.orelse, depth)
+                    if isinstance(v, ast.Call) and isinstance(v.func, ast.Attribute) and v.func.attr in CONVERT:
+                        return clean_value(v.func.value, depth)
+                    if isinstance(v, ast.Call) and isinstance(v.func, ast.Name) and v.func.id in ("to_bytes", "to_unicode") and v.args:
+                        return clean_value(v.args[0], depth)
+                    return False
+                rep.check(clean(arg), R, site(un, q), f"{ast.unparse(c)}  # argument derives from: {ast.unparse(arg)}",
+                          "the truncation policy is checked on the password as given (converted to bytes at most), before anything cuts, repeats or normalises it",
+                          witness="bcrypt.using(truncate_error=True, ident='2').hash('x' * 100) succeeds: the legacy-ident emulation has already brought the secret to 72 bytes when the policy looks at it")
+    if n < 6:
+        rep.undecided(R, "<instance-count>", f"only {n} calls of _check_truncate_policy found, expected at least 6")
+
+
 def rule_de(model, rep):
     R = "C05.d-hash-time-only"
     n = 0
@@ -393,5 +445,6 @@ def run(model, rep):
     rule_c(model, rep)
     rule_de(model, rep)
     rule_f(model, rep)
+    rule_g(model, rep)
     from . import shared
     shared.fact_expand_settings(model, rep, "C05.e-declared-limit")
